@@ -1095,7 +1095,9 @@ func (d *indexData) newMatchTree(q query.Q, opt matchTreeOpt) (matchTree, error)
 		checksum := queryMetaChecksum(s.Field, s.Value)
 		cacheKeyField := "Meta"
 		if cached, ok := d.docMatchTreeCache.Get(cacheKeyField, checksum); ok {
-			return cached, nil
+			// A docMatchTree carries its iteration cursor. The cached node is
+			// shared by all searches, so hand out a copy of the immutable part.
+			return &docMatchTree{reason: cached.reason, numDocs: cached.numDocs, predicate: cached.predicate}, nil
 		}
 
 		reposWant := make([]bool, len(d.repoMetaData))
@@ -1118,7 +1120,7 @@ func (d *indexData) newMatchTree(q query.Q, opt matchTreeOpt) (matchTree, error)
 				return reposWant[repoIdx]
 			},
 		}
-		d.docMatchTreeCache.Add(cacheKeyField, checksum, mt)
+		d.docMatchTreeCache.Add(cacheKeyField, checksum, &docMatchTree{reason: mt.reason, numDocs: mt.numDocs, predicate: mt.predicate})
 		return mt, nil
 
 	case *query.Substring:
